@@ -471,7 +471,13 @@ def main(tier: str, seed: int, replay: str | None = None) -> int:
     rng = random.Random(seed)
     lang = make_language()
 
+    old_evidence = None
+    pre = ""
     if replay:
+        # a replay is diagnostic: keep the evidence of the last full run
+        ev = C.EVID / f"{PID}.json"
+        old_evidence = ev.read_text() if ev.exists() else None
+        pre = "replay_"
         d = json.loads(Path(replay).read_text())
         cases = [d["case"]] if "case" in d else []
         if "history" in d and d.get("case", {}).get("kind") != "history":
@@ -573,7 +579,7 @@ def main(tier: str, seed: int, replay: str | None = None) -> int:
                 # root cause: on this history the implementation yields exactly what the pinned
                 # add_from yields (only a itself receives b's dependencies), and nothing is extra
                 sig = SIG_PINNED if (dp == m_pinned and not (have - want)) else None
-                failing.append((len(ops), f"oracle_{kind}_{ci}_{si}", dict(base, kind="oracle",
+                failing.append((len(ops), f"{pre}oracle_{kind}_{ci}_{si}", dict(base, kind="oracle",
                     what="depends differs from the transitive closure of from on a generated graph",
                     snapshot=si, **{"from": sfr, "depends": sdp,
                     "missing": sorted(want - have), "extra": sorted(have - want)}), sig, True))
@@ -581,7 +587,7 @@ def main(tier: str, seed: int, replay: str | None = None) -> int:
         # certified decider must agree with the Python oracle on the final graph
         py_ok = closure(fr) == set(dp)
         if bool(decided) != py_ok:
-            disagree.append((f"decider_{ci}", dict(base, kind="harness",
+            disagree.append((f"{pre}decider_{ci}", dict(base, kind="harness",
                 what="Python closure oracle and the certified decider closedb disagree",
                 **{"from": fr, "depends": dp, "closedb": decided})))
         # correspondence
@@ -598,7 +604,7 @@ def main(tier: str, seed: int, replay: str | None = None) -> int:
                     break
         if bad:
             n_dis += 1
-            disagree.append((f"disagree_{kind}_{ci}", dict(base, kind="correspondence",
+            disagree.append((f"{pre}disagree_{kind}_{ci}", dict(base, kind="correspondence",
                 what=f"add_from differs from the model (K_C09): {bad}",
                 impl={"from": fr, "depends": dp}, model={"from": m_from, "depends": m_dep},
                 pinned_model_depends=m_pinned)))
@@ -646,6 +652,9 @@ def main(tier: str, seed: int, replay: str | None = None) -> int:
         "rdflib store and transitive_objects are modelled by their specification",
         "agreement between model and implementation is tested on the generated cases, not proved",
     ]
+    rc = rep.finish(C.TRUSTED)
     if replay:
         print(f"replayed {len(runs)} case(s): oracle failures {n_oracle_fail}, disagreements {n_dis}")
-    return rep.finish(C.TRUSTED)
+        if old_evidence is not None:
+            (C.EVID / f"{PID}.json").write_text(old_evidence)
+    return rc
